@@ -197,6 +197,13 @@ theorem legacy_cond_test_break_refused : checkB Legacy.condTestBreak = false := 
 operands for one formal and jumps back to instruction 0. -/
 theorem legacy_tailcall_arity_refused : checkB Legacy.tailArity = false := by decide
 
+/-- a self call in a `let` initialiser compiled as a tail call (before fix C04-08): at the
+`goto 0` the data stack holds the value of the first initialiser besides the argument. -/
+theorem legacy_let_init_tailcall_refused : checkB Legacy.letInitTailCall = false := by decide
+
+/-- `continue` inside a package body inside a loop (before fix C04-09) -/
+theorem legacy_package_continue_refused : checkB Legacy.packageContinue = false := by decide
+
 /-- Selector assignment `(defn g [] {a[0] = 99})` before fix C04-03, with the legacy effect of
 `AssignInstr` (pops two, pushes nothing): `ret` is reached with no value. -/
 theorem legacy_selector_assign_counterexample (D : List Cell) (S A : Nat) :
